@@ -14,6 +14,7 @@ sys.dont_write_bytecode = True
 NOT_APPLICABLE = {}
 
 ENGINES = [
+    {"name": "E0b decomposition normaliser", "path": "sa/normalise.py", "kind_free_text": "functions that are not in the pinned tree's function list are expanded at their (module-local or sibling-module) call sites before analysis; renamed functions get their old name back"},
     {"name": "E0 program model", "path": "sa/model.py", "kind_free_text": "ast-based module/function/class index, constant folder, annotation-driven call resolution"},
     {"name": "E1 statement CFG", "path": "sa/cfg.py", "kind_free_text": "per-function control-flow graph with split short-circuit tests, exception/finally edges, no-return fixpoint, dominance by edge cutting"},
     {"name": "E2 effects", "path": "sa/effects.py", "kind_free_text": "primitive effect classification of call sites (FS write/read, VCS read/fetch/mutate by command name, hook, exit, raise) and transitive summaries over the call graph"},
@@ -33,6 +34,9 @@ def main() -> None:
             na.append({"property_id": pid, "reason": NOT_APPLICABLE.get(pid, "check not built yet (planned static rules: DESIGN.md section 4)")})
             continue
         mod = importlib.import_module(f"checks.{pid.lower()}")
+        import re as _re
+        rules = _re.findall(r'ctx\.rule\("(R\d+)",\s*"((?:[^"\\]|\\.)*)"\)', open(path).read())
+        rule_txt = "  Rules: " + "; ".join(f"{k} - {v}" for k, v in sorted(rules, key=lambda kv: int(kv[0][1:])))
         checks.append({
             "property_id": pid,
             "quick_cmd": f"./check {pid} --tier quick",
@@ -42,7 +46,7 @@ def main() -> None:
             "engine": "sa (static analysis over ast; no execution of bumpver)",
             "level_claimed": {
                 "category": "other",
-                "text": getattr(mod, "LEVEL_TEXT", getattr(mod, "EXPLANATION", "")),
+                "text": getattr(mod, "LEVEL_TEXT", getattr(mod, "EXPLANATION", "")) + rule_txt,
                 "design_ref": getattr(mod, "DESIGN_REF", f"DESIGN.md section 4, {pid}"),
             },
             "level_note": getattr(mod, "LEVEL_NOTE", "Trusted: Python's ast/re._parser/shlex parsers and the documented semantics of the stdlib calls modelled (str.split/join/replace, re ordered choice, strftime ranges, subprocess.check_output raising). Call resolution is annotation-driven."),
